@@ -11,6 +11,11 @@
                                                                         subscribe()d callables first, then receivers
                                                                         connected to .changed)
      rollback(): except OptionsError: _options = old; changed.send   = the second Notify with the old values
+   A listener may carry a cascade <<trigger name, trigger value, target name, target value>>: told that the trigger
+   was assigned and reading the trigger value, it assigns the target with a nested update() of its own (as the
+   Intercept addon switches intercept_active when intercept is set).  The nested update_known has its own rollback
+   context and notification round; the outer rollback swaps in the snapshot of ALL options taken before the outer
+   assignment, so an accepted nested assignment is undone together with a rejected outer update.
    Deliberate deviations of the code, as constants:
      TypeErrorRollsBack = FALSE : rollback() catches only OptionsError; a TypeError of a later key leaves the
                                   earlier keys of the same call assigned and nobody is told
@@ -19,7 +24,8 @@
 EXTENDS Mon_Options, TLC
 CONSTANTS Opts,        \* <<[name, type, default]>> options that exist from the start
           Late,        \* <<[name, type, default]>> options that may be added later (deferred values wait for them)
-          Listeners,   \* <<[id, subs |-> <<names>>, forbid |-> {<<name, value>>}]>> in notification order
+          Listeners,   \* <<[id, subs |-> <<names>>, forbid |-> {<<name, value>>}, casc |-> <<>> or <<trig, val, tgt, val>>]>>
+                       \* in notification order
           Updates,     \* set of [via |-> "update"|"setattr"|"defer"|"set"|"set_defer", kvs |-> <<<<name, value>>>>]
           Modes,       \* save/load modes explored
           StrCls,      \* class of pool string k
@@ -55,16 +61,30 @@ AssignAll(vs, kvs) ==
   ELSE IF ~WellTyped(kvs[1][1], kvs[1][2]) THEN [v |-> vs, err |-> TRUE]
   ELSE AssignAll([vs EXCEPT ![kvs[1][1]] = kvs[1][2]], Tail(kvs))
 
-\* changed.send(updated=keys): every concerned receiver reads the options; one may raise OptionsError
-RECURSIVE Notify(_, _, _, _)
-Notify(i, vs, keys, notes) ==
-  IF i > Len(Listeners) THEN [notes |-> notes, rej |-> FALSE]
+\* changed.send(updated=keys): every concerned receiver reads the options; one may raise OptionsError; one may make a
+\* nested update (d = 0: outer round; d = 1: the round of a nested update, whose keys never hold a trigger)
+Fires(L, vs, keys) == /\ L.casc # <<>> /\ L.casc[1] \in keys /\ L.casc[1] \in DOMAIN vs /\ L.casc[3] \in DOMAIN vs
+                      /\ vs[L.casc[1]] = L.casc[2] /\ vs[L.casc[3]] # L.casc[4]
+RECURSIVE Notify(_, _, _, _, _, _)
+Notify(i, vs, keys, notes, nest, d) ==
+  IF i > Len(Listeners) THEN [notes |-> notes, rej |-> FALSE, v |-> vs, nest |-> nest]
   ELSE LET L == Listeners[i] IN
-       IF ToSet(L.subs) \cap keys = {} THEN Notify(i + 1, vs, keys, notes)
+       IF ToSet(L.subs) \cap keys = {} THEN Notify(i + 1, vs, keys, notes, nest, d)
        ELSE LET n2 == Append(notes, [l |-> L.id, upd |-> InDeclOrder(keys), vals |-> vs])
             IN IF \E fv \in L.forbid : fv[1] \in DOMAIN vs /\ vs[fv[1]] = fv[2]
-               THEN [notes |-> n2, rej |-> TRUE]
-               ELSE Notify(i + 1, vs, keys, n2)
+               THEN [notes |-> n2, rej |-> TRUE, v |-> vs, nest |-> nest]
+               ELSE IF d = 0 /\ Fires(L, vs, keys)
+               THEN \* opts.update(target=value) inside the callback: assign, notify {target}, own rollback
+                    LET tgt == L.casc[3]
+                        vs2 == [vs EXCEPT ![tgt] = L.casc[4]]
+                        inner == Notify(1, vs2, {tgt}, n2, nest, 1)
+                    IN IF inner.rej
+                       THEN [notes |-> Notify(1, vs, {tgt}, inner.notes, nest, 1).notes, rej |-> TRUE, v |-> vs,
+                             nest |-> nest]
+                       ELSE Notify(i + 1, vs2, keys, inner.notes,
+                                   Append(nest, [name |-> tgt, val |-> L.casc[4]]), d)
+               ELSE Notify(i + 1, vs, keys, n2, nest, d)
+Round(vs, keys, notes, nest) == Notify(1, vs, keys, notes, nest, 0)
 
 KeysOf(kvs) == { kvs[i][1] : i \in 1..Len(kvs) }
 WantOf(kvs) == [n \in KeysOf(kvs) |-> kvs[CHOOSE i \in 1..Len(kvs) : kvs[i][1] = n][2]]
@@ -73,19 +93,20 @@ WantOf(kvs) == [n \in KeysOf(kvs) |-> kvs[CHOOSE i \in 1..Len(kvs) : kvs[i][1] =
 UpdateKnown(old, kvs) ==
   LET keys == KeysOf(kvs)
       a == AssignAll(old, kvs)
-  IN IF kvs = <<>> THEN [v |-> old, outcome |-> "ok", exc |-> "", notes |-> <<>>]
+  IN IF kvs = <<>> THEN [v |-> old, outcome |-> "ok", exc |-> "", notes |-> <<>>, nest |-> <<>>]
      ELSE IF a.err
           THEN IF TypeErrorRollsBack
-               THEN [v |-> old, outcome |-> "raised", exc |-> "TypeError", notes |-> Notify(1, old, keys, <<>>).notes]
-               ELSE [v |-> a.v, outcome |-> "raised", exc |-> "TypeError", notes |-> <<>>]
-     ELSE LET n1 == Notify(1, a.v, keys, <<>>)
+               THEN [v |-> old, outcome |-> "raised", exc |-> "TypeError", notes |-> Round(old, keys, <<>>, <<>>).notes,
+                     nest |-> <<>>]
+               ELSE [v |-> a.v, outcome |-> "raised", exc |-> "TypeError", notes |-> <<>>, nest |-> <<>>]
+     ELSE LET n1 == Round(a.v, keys, <<>>, <<>>)
           IN IF n1.rej
-             THEN [v |-> old, outcome |-> "raised", exc |-> "OptionsError",
-                   notes |-> n1.notes \o Notify(1, old, keys, <<>>).notes]
-             ELSE [v |-> a.v, outcome |-> "ok", exc |-> "", notes |-> n1.notes]
+             THEN LET rb == Round(old, keys, n1.notes, n1.nest)     \* _options = snapshot; changed.send(updated)
+                  IN [v |-> rb.v, outcome |-> "raised", exc |-> "OptionsError", notes |-> rb.notes, nest |-> rb.nest]
+             ELSE [v |-> n1.v, outcome |-> "ok", exc |-> "", notes |-> n1.notes, nest |-> n1.nest]
 
 UpdEv(via, kvs, r) == [k |-> "update", via |-> via, keys |-> InDeclOrder(KeysOf(kvs)), want |-> WantOf(kvs),
-                       outcome |-> r.outcome, exc |-> r.exc, vals |-> r.v, notes |-> r.notes]
+                       outcome |-> r.outcome, exc |-> r.exc, vals |-> r.v, notes |-> r.notes, nested |-> r.nest]
 
 Known(kvs) == SelectSeq(kvs, LAMBDA kv : kv[1] \in DOMAIN vals)
 Unknown(kvs) == SelectSeq(kvs, LAMBDA kv : kv[1] \notin DOMAIN vals)
@@ -118,7 +139,7 @@ DoSet(u) ==
   /\ Run /\ u.via \in {"set", "set_defer"}
   /\ LET kn == Known(u.kvs)
          un == Unknown(u.kvs)
-         fail(r0) == [v |-> vals, outcome |-> "raised", exc |-> "OptionsError", notes |-> <<>>]
+         fail(r0) == [v |-> vals, outcome |-> "raised", exc |-> "OptionsError", notes |-> <<>>, nest |-> <<>>]
      IN IF \E i \in 1..Len(kn) : kn[i][2][1] = "bad"
         THEN UNCHANGED <<vals, deferred, file>> /\ Emit(<<UpdEv(u.via, kn, fail(0))>>)
         ELSE IF u.via = "set" /\ un # <<>>
@@ -133,9 +154,10 @@ AddOption(i) ==
   /\ Run /\ Late[i].name \notin DOMAIN vals
   /\ LET n == Late[i].name
          v2 == [x \in DOMAIN vals \cup {n} |-> IF x = n THEN Late[i].default ELSE vals[x]]
-     IN /\ vals' = v2 /\ UNCHANGED <<deferred, file>>
+         r == Round(v2, {n}, <<>>, <<>>)
+     IN /\ vals' = r.v /\ UNCHANGED <<deferred, file>>
         /\ Emit(<<[k |-> "update", via |-> "addopt", keys |-> <<n>>, want |-> [x \in {n} |-> Late[i].default],
-                   outcome |-> "ok", exc |-> "", vals |-> v2, notes |-> Notify(1, v2, {n}, <<>>).notes]>>)
+                   outcome |-> "ok", exc |-> "", vals |-> r.v, notes |-> r.notes, nested |-> r.nest]>>)
 
 \* process_deferred(): parse unconverted strings (may raise), update(update), then forget what was applied
 ProcessDeferred ==
@@ -144,7 +166,7 @@ ProcessDeferred ==
      IN IF \E i \in 1..Len(due) : due[i][2][1] = "bad"
         THEN /\ UNCHANGED <<vals, deferred, file>>
              /\ Emit(<<UpdEv("process_deferred", due,
-                             [v |-> vals, outcome |-> "raised", exc |-> "OptionsError", notes |-> <<>>])>>)
+                             [v |-> vals, outcome |-> "raised", exc |-> "OptionsError", notes |-> <<>>, nest |-> <<>>])>>)
         ELSE LET r == UpdateKnown(vals, due)
              IN /\ vals' = r.v /\ UNCHANGED file
                 /\ deferred' = IF r.outcome = "ok" THEN SelectSeq(deferred, LAMBDA kv : kv[1] \notin DOMAIN vals)
@@ -155,9 +177,10 @@ ProcessDeferred ==
 Reset ==
   /\ Run /\ \E n \in DOMAIN vals : vals[n] # DeclOf(n).default
   /\ LET v2 == [n \in DOMAIN vals |-> DeclOf(n).default]
-     IN /\ vals' = v2 /\ UNCHANGED <<deferred, file>>
+         r == Round(v2, DOMAIN vals, <<>>, <<>>)
+     IN /\ vals' = r.v /\ UNCHANGED <<deferred, file>>
         /\ Emit(<<[k |-> "update", via |-> "reset", keys |-> InDeclOrder(DOMAIN vals), want |-> v2,
-                   outcome |-> "ok", exc |-> "", vals |-> v2, notes |-> Notify(1, v2, DOMAIN vals, <<>>).notes]>>)
+                   outcome |-> "ok", exc |-> "", vals |-> r.v, notes |-> r.notes, nested |-> r.nest]>>)
 
 \* what a value becomes on the way through the config file
 Mangle(v) == IF v[1] \in {"s", "q"}
